@@ -527,5 +527,5 @@ func TestC14(t *testing.T) {
 }
 
 func TestC14Concurrent(t *testing.T) {
-	runProperty(t, "C14", genC14, execC14Concurrent)
+	runPropertyAs(t, "C14", "C14C", genC14, execC14Concurrent)
 }
